@@ -75,6 +75,12 @@ Theorem C05_pow_mag : forall (L : libm) g n, mag (gpow L g n) = powF L (mag g) n
 Proof. reflexivity. Qed.
 Print Assumptions C05_pow_mag.
 
+(* the angle of a power, as the code computes it: the angle product (= blade-exact sum) with Angle::new(n, 1),
+   i.e. n half turns are ADDED (the property claims the magnitude only; the rustdoc's n*theta is not what the code does) *)
+Theorem C05_pow_angle : forall (L : libm) g n, ang (gpow L g n) = geometric_add (ang g) (new n one).
+Proof. reflexivity. Qed.
+Print Assumptions C05_pow_angle.
+
 (* associative up to rounding (magnitude: 5*2^-53 relative plus an underflow term) and the boundary
    tolerance (angle totals: four addition tolerances; with the REAL pi, plus 2e-16) *)
 Theorem C05_assoc : forall a b c, canonp (rem (ang a)) -> canonp (rem (ang b)) -> canonp (rem (ang c)) ->
